@@ -124,6 +124,7 @@ def gen_machs(r, nmax, vec_ok=True):
             ms.append({'kind': 'D', 'delay': r.choice((0.0, dy(r, 0, 0.25), dy(r, 0, 0.25), dy(r, 0.25, 2.0))), 'src': gen_src(r, n)})
         else:
             src = gen_src(r, n)
+            if r.random() < 0.35: src = [('+', ('*', dy(r, -3, 3), ('t',)), ('c', dy(r, -3, 3))) for _ in range(n)]   # affine: exactness predicate
             if n == 1 and pdep(src[0]) < 4: src = [('t',)]
             ms.append({'kind': 'F', 'src': src})
     return ms
@@ -213,10 +214,12 @@ def build_tools(ctx):
                     'observation compared exactly, numbers with rel %g abs %g' % (RTOL, ATOL))
     return os.path.join(d, 'drv'), exes
 
+FX = ['0']      # model flag fx: '1' when the tree under test has the repair of patches/C23_extreme_setvalue.diff (decided by decide_fx)
+
 def run_both(ctx, drv, exe, lines, what):
     inp = '\n'.join(lines) + '\n'
     rc1, o1, e1 = sh([exe], input=inp, timeout=1200)
-    rc2, o2, e2 = sh([drv], input=inp, timeout=1200)
+    rc2, o2, e2 = sh([drv, FX[0]], input=inp, timeout=1200)
     l1 = [l for l in o1.split('\n') if l.strip()]; l2 = [l for l in o2.split('\n') if l.strip()]
     if rc1 != 0 or rc2 != 0 or len(l1) != len(l2):
         ctx.broken.append(('correspondence:' + what, 'runner failed rc=%s/%s lines=%d/%d: %s' % (rc1, rc2, len(l1), len(l2), (e1 + e2)[-400:])))
@@ -253,7 +256,8 @@ def corr_drive(ctx, drv, exe, n):
     if os.path.isdir(cdir):
         for f in sorted(os.listdir(cdir)):
             if f.endswith('.case'):
-                lines += [l.strip() for l in open(os.path.join(cdir, f)) if l.strip() and not l.startswith('#')]; corpus_n += 1
+                cl = [l.strip() for l in open(os.path.join(cdir, f)) if l.strip() and not l.startswith('#')]
+                lines += cl; corpus_n += sum(1 for l in cl if l.startswith('CASE'))
     for c in range(n): lines += gen_case(ctx.rng, 'g%d' % c, hist)
     open(ctx.bdir('drive_cases.txt'), 'w').write('\n'.join(lines) + '\n')
     r = run_both(ctx, drv, exe, lines, 'drive')
@@ -346,6 +350,19 @@ def replay_lines(run, res):
     lines.append('END')
     return lines, expect, ok
 
+def affine(e):
+    """(a, c) if the expression is a*t + c syntactically, else None"""
+    k = e[0]
+    if k == 'c': return (0.0, e[1])
+    if k == 't': return (1.0, 0.0)
+    if k == 's': return None
+    if k in '+-':
+        l, r = affine(e[1]), affine(e[2])
+        if l is None or r is None: return None
+        return (l[0] + r[0], l[1] + r[1]) if k == '+' else (l[0] - r[0], l[1] - r[1])
+    x = affine(e[2])
+    return None if x is None else (e[1] * x[0], e[1] * x[1])
+
 def interp_history(hist, td):
     """the theorem's right-hand side for Delay: piecewise-linear interpolant of the recorded samples (flat before the
     first, linear extrapolation through the last two after the last)"""
@@ -385,6 +402,15 @@ def spec_check(run, res):
                 for g, w in zip(got, want):
                     if not close(key[m['op']](g), key[m['op']](w), 1e-9, 1e-12):
                         fails.append(('extreme_is_fold', 'machine %d (op %d) at t=%s: got %r, extreme of the operand over the auto-update states and the current one is %r' % (j, m['op'], hx(t), got, want), ri)); break
+            elif m['kind'] == 'F':
+                # differentiate_exact_on_affine: the finite-difference estimate of an affine operand is its slope as soon as two
+                # different times have been seen
+                affs = [affine(e) for e in m['src']]
+                if all(x is not None for x in affs):
+                    seen = t != au[-1] or any(x != au[0] for x in au)
+                    want = [x[0] if seen else 0.0 for x in affs]
+                    if any(not close(g, w, 1e-7, 1e-9) for g, w in zip(got, want)):
+                        fails.append(('differentiate_exact_on_affine', 'machine %d at t=%s: got %r, the operand is affine with slope %r' % (j, hx(t), got, want), ri))
             elif m['kind'] == 'D':
                 hist = []
                 for tau in au:
@@ -418,7 +444,7 @@ def corr_integ(ctx, drv, exes, n):
         exps.append((r, rr, len(allines), expect)); allines += lines
         f, ne = spec_check(r, rr); spec_eval += ne
         for x in f: spec_fails.append((r, rr, x))
-    rc2, o2, e2 = sh([drv], input='\n'.join(allines) + '\n', timeout=2400)
+    rc2, o2, e2 = sh([drv, FX[0]], input='\n'.join(allines) + '\n', timeout=2400)
     l2 = [l for l in o2.split('\n') if l.strip()]
     nout = len([l for l in allines if l.split()[0] not in ('TREE', 'EXT', 'DEL', 'DIF', 'VAR')])
     if rc2 != 0 or len(l2) != nout:
@@ -458,34 +484,54 @@ def corr_integ(ctx, drv, exes, n):
                     'replay_cmd': 'printf "%%s\\n" <run lines> | %s' % exes['integ']})
 
 # ------------------------------------------------------------------------------------------------ findings
+def _val(line):
+    t = line.split()
+    return fx(t[2]) if len(t) > 2 and t[1] == 'V' else None
+
 FINDINGS = [
- # key, case lines, index of the deciding output line, (wrong value the code returns now, value the definition prescribes), text
+ # key, case lines, predicate on the implementation's output lines (True = the defect is present), text
  ('variable-change-leaves-dependents-valid',
   ['CASE f1', 'VAR 0x1.4p+2 5', 'TREE + V 0 T', 'BEGIN 0x1p+0', 'R 8', 'G 0 0 -', 'V 0 0x1.9p+6', 'R 8', 'G 0 0 0', 'G 0 0 -', 'END'],
-  -2, 6.0, 101.0,
+  lambda o: _val(o[-2]) is not None and not close(_val(o[-2]), 101.0, 1e-12, 1e-12),
   'Plus(Variable(invalidates Position)=5, Time) at t=1 reads 6; after Variable::setValue(100) and realize it still reads 6 (definition: 101)'),
  ('getvalue-one-stage-early-survives-time-change',
   ['CASE f2', 'TREE + T C 0x1.4p+3', 'BEGIN 0x1p+0', 'R 3', 'G 0 0 -', 'T 0x1p+1', 'R 4', 'G 0 0 -', 'END'],
-  -2, 11.0, 12.0,
+  lambda o: _val(o[-2]) is not None and not close(_val(o[-2]), 12.0, 1e-12, 1e-12),
   'Plus(Time, 10): getValue at t=1 with the state at Instance stage (allowed: one stage early), setTime(2), realize(Time): still reads 11 (definition: 12)'),
  ('extreme-setvalue-keeps-stale-new-extreme-flag',
   ['CASE f3', 'EXT 1 1 s 0x1p+0 0x1p+0 0x0p+0', 'BEGIN 0x1p-1', 'R 8', 'M 0', 'X 0 1 0x1.4p+3', 'R 8', 'M 0', 'END'],
-  -2, None, 10.0,
+  lambda o: o[-2].split()[1] == 'EXC' or (_val(o[-2]) is not None and not close(_val(o[-2]), 10.0, 1e-12, 1e-12)),
   'Maximum(sin t) evaluated at t=0.5 (new extreme), then Extreme::setValue(10) at the same time: getValue throws (stale isNewExtreme flag points at the invalidated update entry); definition: 10'),
+ ('delay-value-not-invalidated-by-autoupdate',
+  ['CASE f4', 'DEL 0x1p-3 1 s 0x1p+0 0x1p+1 0x0p+0', 'BEGIN 0x0p+0', 'I', 'R 8', 'A', 'T 0x1p+0', 'R 8', 'A', 'T 0x1p+1', 'R 8', 'M 0', 'A', 'M 0',
+   'T 0x1p+1', 'R 8', 'M 0', 'END'],
+  lambda o: None not in (_val(o[10]), _val(o[12]), _val(o[15])) and _val(o[10]) == _val(o[12]) and not close(_val(o[12]), _val(o[15]), 1e-9, 1e-12),
+  'Delay(sin 2t, 1/8) at t=2 with samples at 0,1: getValue = 1.7049 (extrapolation); autoUpdateDiscreteVariables at the same time adds the sample (2, sin 4) to the '
+  'buffer but the value cache entry stays valid: still 1.7049; after re-setting the same time the same state reads -0.5485 (interpolation; true value -0.5716)'),
 ]
+
+def decide_fx(ctx, exe):
+    """which variant of Extreme::setValue does the tree under test implement?  Replays the witness of extreme_setvalue_refuted on
+    the implementation: if it no longer throws / returns the set value, the model runs with fx = true (theorems hold for both)"""
+    key, lines, present, text = [f for f in FINDINGS if f[0] == 'extreme-setvalue-keeps-stale-new-extreme-flag'][0]
+    rc, out, err = sh([exe], input='\n'.join(lines) + '\n', timeout=300)
+    l1 = [l for l in out.split('\n') if l.strip()]
+    repaired = rc == 0 and len(l1) >= 3 and not present(l1)
+    FX[0] = '1' if repaired else '0'
+    ctx.extra['model_variant'] = {'fx_extreme_setvalue_repaired': repaired}
+    ctx.log('Extreme::setValue variant of the tree under test: %s (model flag fx=%s)' % ('repaired' if repaired else 'as in the original source', FX[0]))
 
 def findings(ctx, drv, exe):
     """replay the refutation witnesses of the Properties file on the implementation and on the model"""
-    for key, lines, idx, wrong, right, text in FINDINGS:
+    for key, lines, present, text in FINDINGS:
         r = run_both(ctx, drv, exe, lines, 'finding:' + key)
         if r is None: continue
         l1, l2 = r
-        a, b = l1[idx].split(), l2[idx].split()
-        if not same_obs(l1[idx], l2[idx]):
-            ctx.broken.append(('finding:' + key, 'model and implementation differ on the witness: cxx=%s model=%s' % (l1[idx], l2[idx]))); continue
-        got = None if a[1] != 'V' else fx(a[2])
-        if (got is None and right is not None and a[1] == 'EXC') or (got is not None and right is not None and not close(got, right, 1e-12, 1e-12)):
-            ctx.report(key, text, {'case': lines, 'implementation_output': l1, 'model_output': l2, 'deciding_line': idx,
+        bad = [(a, b) for a, b in zip(l1, l2) if not same_obs(a, b)]
+        if bad:
+            ctx.broken.append(('finding:' + key, 'model and implementation differ on the witness: cxx=%s model=%s' % bad[0])); continue
+        if present(l1):
+            ctx.report(key, text, {'case': lines, 'implementation_output': l1, 'model_output': l2,
                                    'replay_cmd': 'printf "%%s\\n" <case lines> | %s' % exe})
         else:
             ctx.notes.append('finding %s no longer reproduces (implementation now returns the prescribed value)' % key)
@@ -543,6 +589,7 @@ def run(ctx):
     tools = build_tools(ctx)
     if tools:
         drv, exes = tools
+        decide_fx(ctx, exes['drive'])
         corr_drive(ctx, drv, exes['drive'], 250 if quick else 5000)
         corr_integ(ctx, drv, exes, 40 if quick else 600)
         findings(ctx, drv, exes['drive'])
@@ -576,6 +623,7 @@ def replay(ctx, path):
     tools = build_tools(ctx)
     if not tools: return
     drv, exes = tools
+    decide_fx(ctx, exes['drive'])
     lines = r.get('case') or r.get('first_disagreement_case')
     if lines:
         rr = run_both(ctx, drv, exes['drive'], lines, 'replay')
